@@ -237,6 +237,38 @@ def wait_bootup(pattern, prior=0):
     sx.reach("wait-boot")
 
 
+def wait_threads(kind, prior):
+    """the heartbeat arrives from a second thread while the caller enters / sits in the wait"""
+    rig = Rig()
+    NmtError = sx.mod("canopen.nmt").NmtError
+    if prior:
+        rig.inject(0x700 + NODE, sx.mkbytes([0 if kind == "bootup" else sx.fresh_byte("hb0")]))
+    b = 0 if kind == "bootup" else sx.fresh_byte("hb")
+    if kind != "bootup":
+        sx.assume(sx.any_([(b & 0x7F) == x for x in STATES]))
+    sched = sx.scheduler()
+    sched.spawn(lambda: rig.inject(0x700 + NODE, sx.mkbytes([b])), "bus")
+    try:
+        if kind == "bootup":
+            rig.master.wait_for_bootup(timeout=1)
+            st = rig.master.state
+        else:
+            st = rig.master.wait_for_heartbeat(timeout=1)
+    except NmtError:
+        sched.join()
+        woken = any(sched.main.wait_results)
+        sx.prove(not woken, "a waiter woken by the message still failed", "C11/threads/%s-missed" % kind)
+        sx.reach("threads-timeout")
+        return
+    sched.join()
+    woken = any(sched.main.wait_results)
+    sx.prove(woken, "wait returned although no message arrived during the wait", "C11/threads/%s-spurious" % kind)
+    x = b & 0x7F
+    sx.prove(ref_name_is(st, sx.ite(x == 0, 127, x) if kind != "bootup" else 127), "state after the wait",
+             "C11/threads/%s-state" % kind)
+    sx.reach("threads-woken")
+
+
 def jobs(tier):
     out = []
     for kind in KINDS:
@@ -249,6 +281,9 @@ def jobs(tier):
     for d in (0, 1):
         for prior in (0, 1):
             out.append(dict(func="wait_heartbeat", params=dict(deliver=d, prior=prior)))
+    for kind in ("heartbeat", "bootup"):
+        for prior in (0, 1):
+            out.append(dict(func="wait_threads", params=dict(kind=kind, prior=prior)))
     for p in ([], ["b"], ["h", "b"], ["h"], ["h", "h", "b"], ["-"]):
         for prior in (0, 1):
             out.append(dict(func="wait_bootup", params=dict(pattern=p, prior=prior)))
@@ -273,7 +308,7 @@ META = dict(
                  "fake clock advances by the time-out on a wake-up without delivery"],
     stubs=["struct", "threading.Condition", "time", "can (unused: send_message replaced on the instance)", "logging"],
     required_reach=["send_command", "state-name", "invalid-name", "foreign", "heartbeat", "heartbeat-other", "bootup",
-                    "history", "wait-hb", "wait-hb-timeout", "wait-boot", "wait-boot-timeout"],
+                    "history", "wait-hb", "wait-hb-timeout", "wait-boot", "wait-boot-timeout", "threads-woken", "threads-timeout"],
     limits=dict(quick=dict(), thorough=dict()),
     validate_every=dict(quick=5, thorough=20),
 )
